@@ -5,8 +5,10 @@ import (
 	"fmt"
 	"os"
 	"path/filepath"
+	"regexp"
 	"strconv"
 	"strings"
+	"sync"
 	"testing"
 	"time"
 )
@@ -51,12 +53,8 @@ func WorkerMain(t *testing.T, engine string, run RunFunc) {
 	minBudget := int(envInt("DST_MIN_BUDGET", 200))
 	outPath := os.Getenv("DST_OUT")
 	replayDir := os.Getenv("DST_REPLAY_DIR")
-	known := map[string]bool{}
-	for _, s := range strings.Split(os.Getenv("DST_KNOWN"), "\n") {
-		if s = strings.TrimSpace(s); s != "" {
-			known[s] = true
-		}
-	}
+
+	isKnown := IsKnownFinding
 
 	agg := &Aggregate{Property: prop, Engine: engine, Worker: worker, Stats: NewStats(),
 		Abstract: map[string]int{}, Inconclusive: map[string]int{}, Extra: map[string]interface{}{}}
@@ -113,6 +111,7 @@ func WorkerMain(t *testing.T, engine string, run RunFunc) {
 
 	start := time.Now()
 	seen := map[uint64]bool{}
+	minimised := 0
 	for ri := 0; ri < maxRuns && time.Since(start) < budget; ri++ {
 		seed := Mix(base, uint64(worker), uint64(ri))
 		if os.Getenv("DST_RAW_SEEDS") != "" {
@@ -171,11 +170,12 @@ func WorkerMain(t *testing.T, engine string, run RunFunc) {
 			}
 			vr := &ViolationReport{Signature: sig, Detail: res.Violation.Detail, Seed: seed, Count: 1}
 			sigCount[sig] = vr
-			if !known[res.Violation.Property+" "+sig] && replayDir != "" && len(sigCount) <= 3 && claimMinimisation(replayDir, res.Violation.Property, sig) {
+			if !isKnown(res.Violation.Property, sig) && replayDir != "" && minimised < 3 && claimMinimisation(replayDir, res.Violation.Property, sig) {
 				// minimise and write the replay file
 				orig := res.Tape
 				minRuns := 0
 				var lastGood RunResult = res
+				minimised++
 				params := res.Params
 				_ = os.MkdirAll(replayDir, 0o755)
 				rpath := filepath.Join(replayDir, fmt.Sprintf("%s-%d.json", res.Violation.Property, seed))
@@ -249,6 +249,46 @@ func hashString(s string) uint64 {
 		h *= 1099511628211
 	}
 	return h
+}
+
+var (
+	knownOnce   sync.Once
+	knownExact  = map[string]bool{}
+	knownRe     []*regexp.Regexp
+	knownReProp []string
+)
+
+// IsKnownFinding tells whether (property, signature) is listed in the
+// committed known-findings file (handed to the worker through the environment;
+// the file itself is never written at run time). Enumeration drivers use it to
+// keep exploring past a recorded finding instead of stopping at it.
+func IsKnownFinding(prop, sig string) bool {
+	knownOnce.Do(func() {
+		for _, s := range strings.Split(os.Getenv("DST_KNOWN"), "\n") {
+			if s = strings.TrimSpace(s); s != "" {
+				knownExact[s] = true
+			}
+		}
+		for _, s := range strings.Split(os.Getenv("DST_KNOWN_RE"), "\n") {
+			if s = strings.TrimSpace(s); s != "" {
+				if i := strings.IndexByte(s, ' '); i > 0 {
+					if re, err := regexp.Compile(s[i+1:]); err == nil {
+						knownRe = append(knownRe, re)
+						knownReProp = append(knownReProp, s[:i])
+					}
+				}
+			}
+		}
+	})
+	if knownExact[prop+" "+sig] {
+		return true
+	}
+	for i, re := range knownRe {
+		if knownReProp[i] == prop && re.MatchString(sig) {
+			return true
+		}
+	}
+	return false
 }
 
 func firstLine(s string) string {
